@@ -19,6 +19,12 @@ CLAIMED = {
         design="DESIGN.md section 4, C11"),
 }
 
+CLAIMED["C04"] = dict(
+    text="Lean 4 invariant proof over a labelled transition system of lock/trylock/timedlock/unlock at shared-access granularity with an unbounded number of threads and arbitrary interleavings: mutual exclusion (unique bit owner, bit set iff owned), acquisition only when free, waiter accounting, no lost wake-up (invariant 'waiters have hope' and stuck-freedom: a quiescent reachable state has no sleeper), trylock never blocks and fails only if held, sleepers perform no access, woken threads pushed exactly once. Tie: whole-library programs run under a token-passing schedule controller; every implementation trace (values read, CAS outcomes, dequeues) must be accepted step by step by the model; the occupancy/deadlock oracle runs on the implementation.",
+    note="Trusted: Lean kernel; schedule controller + MYTH_VERIF points (sequentially consistent interleavings at point granularity; x86-TSO effects not exhibited: all accesses here are locked RMWs or follow one); sleep-queue spin lock collapsed to atomic enq/deq; run queues abstracted (C02). 'Eventually' = stuck-freedom under the stated fairness assumption.",
+    technique="Lean 4 inductive-invariant proof over an LTS + trace-acceptance correspondence under controlled schedules",
+    design="DESIGN.md section 4, C04")
+
 NA_REASON = "not yet claimed in this revision: model/theorems/correspondence for this property are still being built (see DESIGN.md section 8 build order); no other technique is substituted"
 
 
